@@ -38,6 +38,9 @@ CAT = {
     'RaiseNested': (I1, 'RaiseNested', '', '', 'raise', 'Err.Nested', 1),
     # an exception text that cannot be encoded as it is (a lone surrogate, as in a file name read with surrogateescape)
     'RaiseSurrogate': (I1, 'RaiseSurrogate', '', '', 'raise', 'Err.Surrogate', 1),
+    # a member of the object's own interface that is called like a member of a standard interface: a call that names
+    # no interface means this one
+    'Ping': (I1, 'Ping', '', 's', 'value', 'Ping', 1),
     'Unenc': (I1, 'Unenc', '', 'u', 'unencodable', 'Err.Unencodable', 1),
     'Arity': (I1, 'Arity', '', 'us', 'unencodable', 'Err.Unencodable', 1),
     'Caller': (I1, 'Caller', '', 's', 'value', 'Caller', 1),
@@ -166,6 +169,10 @@ def build():
             self.log('RaiseSurrogate', (), None)
             raise LookupError('no such file: caf\udce9')
 
+        def dbus_Ping(self):
+            self.log('Ping', (), None)
+            return 'own ping'
+
         def dbus_RaiseMute(self):
             self.log('RaiseMute', (), None)
             raise MuteError()
@@ -278,6 +285,10 @@ class ObjectsDriver:
         self.conn2 = Conn()
         self.h2 = objects.DBusObjectHandler(self.conn2)
         self.h2.exportObject(self.o)
+        # ... and a third connection of the process exports ANOTHER object at the same path: every connection has its own
+        # table of exported objects
+        self.h3 = objects.DBusObjectHandler(Conn())
+        self.h3.exportObject(type(self.o).BaseClass('/obj', lambda *a, **k: None))
         del self.conn.sent[:]
         self.calls = []          # (call record, serial, sender, arg)
         self.seen = 0
@@ -381,7 +392,7 @@ class ObjectsDriver:
         key = find_key(c)
         want = {'Val': ['v:' + arg], 'Multi': ['m', 7], 'Arr': [['solo']], 'Struct': [['t', 3]], 'NoneRet': None,
                 'Defer': ['d:' + arg], 'Caller': [sender], 'Both1': ['one:' + sender], 'Both2': ['two'],
-                'Old': ['old:' + arg], 'Inh': ['inh'], 'Mix': ['mix'], 'Shared': ['sh']}.get(key, '?')
+                'Old': ['old:' + arg], 'Inh': ['inh'], 'Mix': ['mix'], 'Shared': ['sh'], 'Ping': ['own ping']}.get(key, '?')
         body = m.body if m.body else None
         sig_ok = (m.signature or '') == CAT[key][3] if key else False
         return key if body == want and sig_ok else '?return %r sig %r' % (m.body, m.signature)
